@@ -77,7 +77,11 @@ ExpUpdate(m2) ==
 
 ApplyUpdate(m, o, e, step) ==
   IF ~CanUpdate(m) THEN R(m, o, ExcClass(FALSE, e, "update.exc", step), 0)
-  ELSE IF e.exc \in ArithExc /\ AnyUndefOn(m, e.s) THEN R(m, [o EXCEPT !.dead = TRUE], Ok, 1)
+  ELSE IF AnyUndefOn(m, e.s) THEN
+       \* some sub-formula has no defined value (inf - inf, 0 * inf, division by zero ...): Python either raises
+       \* or propagates NaN in an order-dependent way; the README defines nothing here
+       (IF e.exc \in ArithExc \cup {NoExc} THEN R(m, [o EXCEPT !.dead = TRUE], Ok, 1)
+        ELSE R(m, [o EXCEPT !.dead = TRUE], F("update.exc", step, "ok or arithmetic error", e.exc), 1))
   ELSE
     LET m2 == UpdateF(m, e.s, e.t, {})
         ex == ExpUpdate(m2)
@@ -101,7 +105,10 @@ ApplyReset(m, o, e, step) ==
     R(m2, [o EXCEPT !.on = <<>>], f0 \o f1, 0)
 
 ApplyEvaluate(m, o, e, step) ==
-  IF e.exc \in ArithExc /\ AnyUndefOff(m, e.w, Len(e.ts)) THEN R(m, [o EXCEPT !.dead = TRUE], Ok, 1) ELSE
+  IF AnyUndefOff(m, e.w, Len(e.ts)) THEN
+       (IF e.exc \in ArithExc \cup {NoExc} THEN R(m, [o EXCEPT !.dead = TRUE], Ok, 1)
+        ELSE R(m, [o EXCEPT !.dead = TRUE], F("evaluate.exc", step, "ok or arithmetic error", e.exc), 1))
+  ELSE
   LET m2 == EvaluateF(m, e.w, e.ts)
       f0 == ExcClass(TRUE, e, "evaluate.exc", step)
       N  == Len(e.ts)
@@ -129,6 +136,7 @@ Apply(c, e, step) ==
 
 \* relations between the objects of a case, evaluated when all its events are consumed
 RelFail(c, r) ==
+  IF ob[r.x].dead \/ ob[r.y].dead THEN Ok ELSE
   CASE r.rel = "same_on" ->          \* observed update() returns of two objects are identical
          IF ob[r.x].on = ob[r.y].on THEN Ok ELSE F("rel.same_on", 0, ob[r.x].on, ob[r.y].on)
     [] r.rel = "same_off" ->         \* observed evaluate() results are identical
